@@ -1740,7 +1740,7 @@ const WHOLE_VIAS: [&str; 19] = [
 
 /// `TensorView::reorder` / `transpose` (copies into a new tensor) against the adaptor they
 /// materialise (`TensorAccess` / `TensorTranspose` over the view)
-fn copy_op<const D: usize>(v: &Dyn<D>, kind: &str, names: &[&'static str]) -> String {
+fn copy_op<const D: usize>(v: &Dyn<D>, kind: &str, names: &[&'static str], via: &str) -> String {
     if names.len() != D {
         return "skip".into();
     }
@@ -1751,7 +1751,14 @@ fn copy_op<const D: usize>(v: &Dyn<D>, kind: &str, names: &[&'static str]) -> St
     let arr: [&'static str; D] = names_array(names);
     let r = catch(|| {
         let view = TensorView::from(v);
-        let copy: Tensor<u64, D> = if kind == "reorder" { view.reorder(arr) } else { view.transpose(arr) };
+        let copy: Tensor<u64, D> = match (kind, via) {
+            // the same copy by way of the maps of `TensorAccess`
+            ("reorder", "access_map") => TensorAccess::from(v, arr).map(|x| x),
+            ("reorder", "access_map_with_index") => TensorAccess::from(v, arr).map_with_index(|_, x| x),
+            ("reorder", "index_by_map") => view.index_by(arr).map(|x| x),
+            ("reorder", _) => view.reorder(arr),
+            _ => view.transpose(arr),
+        };
         let describe_against = |adaptor: &dyn TensorRef<u64, D>| -> String {
             let shape = adaptor.view_shape();
             if copy.shape() != shape {
@@ -2253,10 +2260,11 @@ impl Runner {
                 let kind = &op[5..];
                 let names = parse_names(names);
                 match self.stack_mut().last() {
-                    Some(top) => dv_each!(top, v => copy_op(v, kind, &names)),
+                    Some(top) => dv_each!(top, v => copy_op(v, kind, &names, via)),
                     None => "skip".into(),
                 }
             }
+            ["api_surface", ..] => api_surface_answer(),
             ["sources", ..] => self.sources(if via.starts_with("owned") { 2 } else { 1 }),
             ["length_of", name, ..] => {
                 let name = intern(name);
@@ -2291,6 +2299,13 @@ impl Runner {
 
     pub fn step(&mut self, toks: &[&str]) -> String {
         let line = toks.join(" ");
+        // (asked by the generator of a child process: see `child_answers`)
+        if let ["static_ops", key] = toks {
+            return static_case(key).into_iter().map(|x| x.0).collect::<Vec<_>>().join("\t");
+        }
+        if let ["api_stats"] = toks {
+            return api_stats_line();
+        }
         if let ["@", "static", key, ..] = toks {
             self.reset();
             let script = static_case(key);
@@ -2447,13 +2462,17 @@ impl Script {
     }
 }
 
-const STATIC_KEYS: [&str; 19] = [
+const STATIC_KEYS: [&str; 28] = [
     "stack_tuple2_refs", "stack_tuple3_mixed", "stack_tuple4_owned", "stack_array_boxed_ref",
     "chain_tuple2_mut", "chain_tuple3_refs", "chain_tuple4_owned", "chain_array3_refs",
     "matrix_backed", "tensor_methods", "matrix_of_tensor_view", "rename_setters",
     "reverse_swap_source", "record_display_map", "boxed_dyn_ref", "shared_receivers",
     "matrix_stacks_typed", "same_source_twice", "adversarial_names_shared",
+    "api_access", "api_transpose", "api_view_shared", "api_view_mut", "api_adaptors", "api_zip", "api_iterators",
+    "api_wrappers", "api_interop",
 ];
+
+include!("c02_api.rs");
 
 fn static_case(key: &str) -> Vec<(String, String)> {
     let mut s = Script(vec![]);
@@ -2925,6 +2944,7 @@ fn static_case(key: &str) -> Vec<(String, String)> {
             let vm: TensorView<u64, &mut Tensor<u64, 2>, 2> = TensorView::from(&mut t3);
             let _ = vm;
         }
+        other if other.starts_with("api_") => api_case(other, &mut s),
         other => panic!("unknown static case {}", other),
     }
     s.0
@@ -2937,7 +2957,55 @@ fn static_case(key: &str) -> Vec<(String, String)> {
 #[path = "c02_gen.rs"]
 mod generator;
 
+/// The answers of this binary in `run` mode, in a child process: the statically typed cases
+/// execute library code, and a change of the library that makes one of them abort (undefined
+/// behaviour caught by a debug assertion) must not take the generator down with it — the run
+/// phase then reports the abort as the failing input it is.
+fn child_answers(lines: &[String]) -> Option<Vec<String>> {
+    use std::io::Write;
+    use std::process::{Command, Stdio};
+    let exe = std::env::current_exe().ok()?;
+    let mut child = Command::new(exe)
+        .args(["run", "C02"])
+        .env_remove("EMLV_REVERSE")
+        .env_remove("EMLV_THREAD")
+        .env_remove("EMLV_PERTURB")
+        .stdin(Stdio::piped())
+        .stdout(Stdio::piped())
+        .stderr(Stdio::null())
+        .spawn()
+        .ok()?;
+    {
+        let mut stdin = child.stdin.take()?;
+        for l in lines {
+            writeln!(stdin, "{}", l).ok()?;
+        }
+    }
+    let out = child.wait_with_output().ok()?;
+    if !out.status.success() {
+        return None;
+    }
+    Some(String::from_utf8_lossy(&out.stdout).lines().map(|l| l.to_string()).collect())
+}
+
 pub fn gen(g: &mut Gen) {
     silence_panics();
-    generator::gen(g, &STATIC_KEYS, &|key| static_case(key).into_iter().map(|x| x.0).collect());
+    generator::gen(g, &STATIC_KEYS, &|key| match child_answers(&[format!("static_ops {}", key)]) {
+        Some(a) if a.len() == 1 && !a[0].is_empty() => a[0].split('\t').map(|x| x.to_string()).collect(),
+        // the case kills the process: the run phase will show it at the `@ static` line
+        _ => vec!["shape".to_string()],
+    });
+    // the API surface: one line whose auxiliary part lists public items neither driven nor listed
+    g.op("@ case".into());
+    g.op("api_surface".into());
+    match child_answers(&["api_stats".to_string()]) {
+        Some(a) if a.len() == 1 => {
+            for entry in a[0].split('\t') {
+                if let Some((k, n)) = entry.rsplit_once(' ') {
+                    g.count_n(k, n.parse().unwrap_or(0));
+                }
+            }
+        }
+        _ => g.count("api.scan_failed"),
+    }
 }
